@@ -51,17 +51,22 @@ macro "k_ac_all" : tactic => `(tactic|
   simp only [Nat.mul_comm, Nat.mul_left_comm, Nat.mul_assoc, Nat.add_comm, Nat.add_left_comm,
     Nat.add_assoc, Nat.min_comm, Nat.max_comm] at *)
 
+-- `rfl` is tried with reducible transparency only: a full definitional-equality check of two AC-different products
+-- with a large literal (`out * rIn * 100000 =?= rIn * out * 100000`) unfolds `Nat.mul` on the literal until the
+-- recursion limit is hit, and that runtime exception is NOT caught by `first` (it aborted the whole proof on the
+-- harmless rewrite harmless/h33).  The default-transparency `rfl` is kept as the LAST resort.
 macro "k_close" : tactic => `(tactic| first
-  | rfl
+  | (with_reducible rfl)
   | omega
   | (k_ac; done)
-  | (k_ac_all <;> first | rfl | omega | (simp_all; done))
+  | (k_ac_all <;> first | (with_reducible rfl) | omega | (simp_all; done))
   | (simp_all; done)
   | (exfalso; simp_all; omega)
   | (simp_all; omega)
   | (k_ac_all; simp_all; done)
   | (k_ac_all; exfalso; simp_all; omega)
-  | (k_ac_all; simp_all; omega))
+  | (k_ac_all; simp_all; omega)
+  | rfl)
 
 /-- unfold, split every `if`, close every leaf -/
 macro "k_solve" : tactic => `(tactic| (
